@@ -6,7 +6,7 @@ META = {
     'rule': 'W-harness: every ASCII string of the stated length through the real tokenizer; '
             'oracle = scanner error with 0<=pos<=len, or spans defined, non-empty, contiguous 0..len.',
     'bounds': {
-        'quick': 'markup tokenize, stylesheet tokenize (property and value mode): all ASCII strings len<=2; 8 markup and 8 stylesheet prefixes (function names, custom properties, fields, escapes) + every suffix of <=2 characters',
+        'quick': 'markup tokenize, stylesheet tokenize (property and value mode): all ASCII strings len<=2; 8 markup and 12 stylesheet prefixes (function names, custom properties, fields, escapes) + every suffix of <=2 characters',
         'thorough': 'the same for all ASCII strings len<=3 (partitioned by length and first-character class)',
     },
     'outside_claim': ['strings longer than the bound', 'code points >= 128',
@@ -89,7 +89,7 @@ def mk_css(L, lo, hi, value_mode):
 
 
 M_PREFIXES = ['ul>li{x', 'a[b="', 'x$@-', 'a{${1:', 'a\\', 'a*', '(a)*2', 'a.b$#']
-C_PREFIXES = ['a1', 'scale3d', 'p--', 'c#f', 'a$b', 'lg(', 'p:"', 'a1(2,']
+C_PREFIXES = ['a1', 'scale3d', 'p--', 'c#f', 'a$b', 'lg(', 'p:"', 'a1(2,', '#12', 'c#f0a1', 'p1.', 'm-1-']
 
 
 def mk_prefixed(lang, pi, n, value_mode=False):
@@ -141,7 +141,7 @@ def jobs(tier):
         out.append(Job('C18-b/prefixed/markup/p%02d' % pi, 'vf.props.c18:mk_prefixed', dict(lang='markup', pi=pi, n=n), shape='H',
                        bound='prefix + <=%d chars' % n, budget=1500 if n == 2 else 6000, weight=50 ** n))
     for pi in range(len(C_PREFIXES)):
-        for vm in ((False, True) if C_PREFIXES[pi] in ('a1', 'p--', 'lg(') or tier != 'quick' else (False,)):
+        for vm in ((False, True) if C_PREFIXES[pi] in ('a1', 'p--', 'lg(', '#12') or tier != 'quick' else (False,)):
             out.append(Job('C18-b/prefixed/css-%s/p%02d' % ('value' if vm else 'prop', pi), 'vf.props.c18:mk_prefixed',
                            dict(lang='css', pi=pi, n=n, value_mode=vm), shape='H', bound='prefix + <=%d chars' % n,
                            budget=1500 if n == 2 else 6000, weight=50 ** n))
